@@ -16,6 +16,7 @@ import time
 import driver
 
 WATCHDOG_S = 15
+MAX_CONFIRMED_HANGS = 3
 CONFIRM_S = 60
 MAX_RESTARTS = 300
 
@@ -49,6 +50,7 @@ def run(prop, profile, tier, seed, shards=16, sample=None, tag=None):
     running = [spawn(s, 0, 0) for s in range(shards)]
     attempt = 1
     results, extra_viol, counters = [], [], {'child_aborts': 0, 'watchdog_false_alarms': 0, 'confirmed_hangs': 0}
+    stopped_early = False
     while running:
         time.sleep(0.05)
         nxt = []
@@ -82,6 +84,16 @@ def run(prop, profile, tier, seed, shards=16, sample=None, tag=None):
                     counters['confirmed_hangs'] += 1
                     extra_viol.append({'sig': 'hang', 'case': 'c07:%d' % inflight,
                                        'detail': {'what': 'the case did not return within %d s when run alone' % CONFIRM_S}})
+                    if counters['confirmed_hangs'] >= MAX_CONFIRMED_HANGS:
+                        # a tree on which inputs hang by the dozen would keep the sweep busy for hours
+                        # (one minute per confirmation): three confirmed witnesses decide the run
+                        stopped_early = True
+                        for o in running:
+                            if o['proc'].poll() is None:
+                                o['proc'].kill()
+                                o['proc'].wait()
+                        nxt = []
+                        break
                 else:
                     counters['watchdog_false_alarms'] += 1
                 nxt.append(spawn(c['shard'], inflight + 1, attempt))
@@ -89,6 +101,9 @@ def run(prop, profile, tier, seed, shards=16, sample=None, tag=None):
             else:
                 nxt.append(c)
         running = nxt
+    if stopped_early and not results:
+        results = [{'engine': 'c07', 'evaluations': 0, 'distinct_nontrivial': 0, 'classes': {}, 'counters': {}, 'samples': [],
+                    'violation_counts': {}, 'violations': [], 'guards': {}, 'pending': [], 'wall_s': 0.0}]
     if not results:
         raise driver.Inconclusive('no c07 child produced a report')
     m = driver.merge_results(results, name=name, profile=profile)
@@ -98,7 +113,11 @@ def run(prop, profile, tier, seed, shards=16, sample=None, tag=None):
     for v in extra_viol:
         m['violation_counts'][v['sig']] = m['violation_counts'].get(v['sig'], 0) + 1
         m['violations'].append(v)
-    m['guards']['child shards that reported'] = {'observed': len(results), 'required': shards}
+    if stopped_early:
+        m['counters']['sweep_stopped_after_%d_confirmed_hangs' % MAX_CONFIRMED_HANGS] = 1
+        m['guards'] = {}
+    else:
+        m['guards']['child shards that reported'] = {'observed': len(results), 'required': shards}
     m['wall_s'] = time.time() - t0
     m['_cmd'] = [exe, 'c07worker', '--tier', tier, '--seed', str(seed)]
     m['_out'] = out
